@@ -77,9 +77,9 @@ def jVehicle (v : DVehicle) : Json :=
 def jDist (d : List (List (Nat × Bool))) : Json :=
   jList (jList (fun (e : Nat × Bool) => Json.arr #[jNat e.1, Json.bool e.2])) d
 
-def jDump (d : Dump) (locs : Option (List Nat)) : Json :=
+def jDump (d : Dump) (locs : Option (List Nat)) (bits : List (List Nat)) : Json :=
   Json.mkObj [("veh", jList jVehicle d.vehicles), ("jobs", jList jJob d.jobs), ("dist", jDist d.dist),
-              ("locs", jOpt (jList jNat) locs)]
+              ("dist_bits", jList (jList jNat) bits), ("locs", jOpt (jList jNat) locs)]
 
 def parseBound (j : Json) : R Bound :=
   match j with
@@ -143,7 +143,8 @@ def parseModel (fmt : String) (rounded : Bool) (lines : List Line) : R (Except E
   else throw s!"unknown format {fmt}"
 
 def modelDumpJson (fmt : String) (P : Problem') : Json :=
-  jDump (observe P) (if fmt == "tsp" then none else some (locsOf P))
+  let d := observe P
+  jDump d (if fmt == "tsp" then none else some (locsOf P)) (bitsMatrix P.rounded (pointsOf d.vehicles d.jobs))
 
 /-! ### the specification evaluated on the implementation's output -/
 
@@ -194,6 +195,12 @@ def problemOracle (fmt : String) (rounded : Bool) (lines : List Line) (fileJ : J
       let distOk := match dec with
         | some J => d.dist == instDist rounded J
         | none => false
+      -- bit-exact: every entry is the double nearest to the Euclidean distance of the file's coordinates (rounded mode:
+      -- the nearest integer), computed from the decoded instance
+      let implBits := (listF (listOf asNat) dj "dist_bits").toOption
+      let bitsOk := match dec with
+        | some J => implBits == some (bitsMatrix rounded ((some J.depotXY) :: J.customers.map (fun c => some (c.x, c.y))))
+        | none => false
       let implAcc := tours.map (fun t => dumpAccepts d (t.map fv.jobId))
       let fileAcc := tours.map (fun t => if fv.pd then fileAcceptsPD I t else fileAcceptsDelivery I t)
       let capOk := implAcc == fileAcc && implAcc.all (·.isSome)
@@ -206,6 +213,7 @@ def problemOracle (fmt : String) (rounded : Bool) (lines : List Line) (fileJ : J
                      ("decoded_instance_is_file", Json.bool (dec == some I)),
                      ("every_customer_exactly_once", Json.bool once),
                      ("distances_are_nearest_integer_euclid", Json.bool distOk),
+                     ("distances_bit_exact", Json.bool bitsOk),
                      ("capacity_binds_as_file", Json.bool capOk),
                      ("pairs_joined_with_opposite_amounts", Json.bool pairsOk)],
             [("customers", jNat I.customers.length), ("cap_accept", jNat (countAccept fileAcc true)),
